@@ -57,8 +57,33 @@ def overlay_file():
     return p
 
 
+def disk_hygiene(min_free_gb=40):
+    """The go build cache grows by gigabytes per mutated low-level package and crashed runs leave scratch
+    directories behind; when space is short drop what has not been used for an hour."""
+    try:
+        st = os.statvfs(BUILD if os.path.isdir(BUILD) else ROOT)
+        free_gb = st.f_bavail * st.f_frsize / 1e9
+        if free_gb >= min_free_gb:
+            return
+        cache = subprocess.run(["go", "env", "GOCACHE"], capture_output=True, text=True, env=go_env()).stdout.strip()
+        for d, pat in ((cache, None), (os.path.join(BUILD, "run"), None), (os.path.join(BUILD, "bin"), "*.[0-9]*.test")):
+            if d and os.path.isdir(d):
+                cmd = ["find", d, "-mindepth", "1", "-mmin", "+60"]
+                if d == cache:
+                    cmd += ["-type", "f"]
+                elif pat:
+                    cmd += ["-name", pat]
+                else:
+                    cmd += ["-maxdepth", "1"]
+                subprocess.run(cmd + ["-exec", "rm", "-rf", "{}", "+"], capture_output=True)
+        log("disk hygiene: %.0f GB were free; trimmed caches and stale scratch" % free_gb)
+    except Exception as e:   # never let housekeeping decide anything
+        log("disk hygiene skipped: %s" % e)
+
+
 def ensure_harness():
     """go.work.sum must follow /repo; the java override classes must exist."""
+    disk_hygiene()
     src = "/repo/go.work.sum"
     dst = os.path.join(HARNESS, "go.work.sum")
     if os.path.exists(src) and (not os.path.exists(dst) or open(src, "rb").read() != open(dst, "rb").read()):
